@@ -1,7 +1,10 @@
 """C02 - required vote count = exact ceiling. Spec: Tally.tla (Req) / TallyTable.tla.
 Binding B (table validation): the real Threshold.Threshold is recorded on the grid
 n x {51.0..100.0} and every recorded line is an initial state of TallyTable.tla whose
-invariant compares it with the exact integer ceiling."""
+invariant compares it with the exact integer ceiling. Rows come in two kinds: thresholds
+made as Go values, and thresholds decoded from their text form (MarshalText/UnmarshalText, the
+way voteproofs and node parameters carry them) - a decoder that moves the value changes the
+required count like the arithmetic would (seeded change C02d)."""
 import os
 import re
 import shutil
@@ -37,10 +40,10 @@ def run(ctx):
             raise core.MachineryError("TallyTable rejected the table structurally:\n" + r.out[-3000:])
         if r.distinct != n:
             raise core.MachineryError("TLC checked %d of %d recorded lines" % (r.distinct, n))
-        mm = re.findall(r'<<"MISMATCH", (\d+), (\d+), (\d+), (\d+)>>', r.out)
+        mm = re.findall(r'<<"MISMATCH", (\d+), (\d+), (\d+), (\d+), "(\w+)">>', r.out)
         first = open(t).readline()
         shutil.rmtree(sub.work, ignore_errors=True)
-        return n, r.distinct, r.generated, [tuple(map(int, m)) for m in mm], first, sub.tlc_cmds
+        return n, r.distinct, r.generated, [tuple(map(int, m[:4])) + (m[4],) for m in mm], first, sub.tlc_cmds
 
     with ThreadPoolExecutor(max_workers=4 if ctx.tier == "thorough" else 1) as ex:
         for n, st, gen, mm, first, cmds in ex.map(one, chunks):
@@ -53,15 +56,23 @@ def run(ctx):
                 ctx.samples.append({"table_line_prefix": first[:160] + "..."})
     ctx.traces = nrows
     ctx.evaluations = nrows * 491
-    for (n, t10, got, want) in mism:
+    seen = {}
+    for (n, t10, got, want, via) in mism:
         if (n * t10) % 1000 == 0 and got == want + 1:
             key = "float-ceil(n*t10%1000==0)"
         else:
             key = "grid-mismatch"
-        ctx.violation(key, "Threshold(%d.%d).Threshold(%d) = %d, exact ceiling is %d" % (t10 // 10, t10 % 10, n, got, want),
-                      {"n": n, "t10": t10, "got": got, "want": want})
+        if via != "value":
+            key += ";threshold-decoded-from-" + via
+        seen[key] = seen.get(key, 0) + 1
+        if seen[key] > 20:
+            continue
+        ctx.violation(key, "Threshold(%d.%d)%s.Threshold(%d) = %d, exact ceiling is %d"
+                      % (t10 // 10, t10 % 10, "" if via == "value" else " [decoded from its text form]", n, got, want),
+                      {"n": n, "t10": t10, "got": got, "want": want, "via": via})
     # distinct non-trivial: every grid point is distinct; count measured from the rows TLC checked
     ctx.distinct_override = nrows * 491
     ctx.extra["grid_points"] = nrows * 491
     ctx.extra["mismatches"] = len(mism)
+    ctx.extra["mismatch_classes"] = seen
     ctx.assumptions = ["thresholds have one decimal place (as Threshold.String prints them)"]
